@@ -479,6 +479,7 @@ Section Shift2.
     assert (Htot : 0 < Rsum (map (fun e : cnode => snd (snd e)) mine)).
     { apply Rsum_pos_nonempty; [discriminate|]. apply Forall_forall. intros y Hy.
       apply in_map_iff in Hy as (e & <- & He). destruct (Hmine e He) as [H1 H2]. now apply HP. }
+    rewrite (proj2 (Rltb_true _ _) Htot).
     destruct (@reduce_max RNum (fold_left (PS mu) mine (@repeatT RNum 0 arity))) as [m|] eqn:Em.
     - cbn [option_map]. field. lra.
     - exfalso. destruct (fold_left (PS mu) mine (@repeatT RNum 0 arity)); [cbn [length] in Hlen; lia|discriminate].
